@@ -115,13 +115,11 @@ pub struct WorldSat<'a> {
 impl<'a> WorldSat<'a> {
     pub fn key_id(&self, pk: &DefiniteDescriptorKey) -> Option<usize> {
         let p = pk.to_public_key();
-        (1..=MAX_KEYS).find(|&k| {
-            if p.compressed {
-                self.u.pks[k] == p.inner
-            } else {
-                self.u.pks[k] == p.inner
-            }
-        })
+        if miniscript::MiniscriptKey::is_x_only_key(pk) {
+            let x = pk.to_x_only_pubkey();
+            return (1..=MAX_KEYS).find(|&k| self.u.xonly[k] == x);
+        }
+        (1..=MAX_KEYS).find(|&k| self.u.pks[k] == p.inner)
     }
 
     pub fn ecdsa(&self, k: usize) -> Option<bitcoin::ecdsa::Signature> {
